@@ -142,6 +142,14 @@ func setECS(
 				edns.SourceScope = scope
 				edns.Address = ip
 
+				// Remove all other ECS options, so that a subnet supplied by
+				// the client in an additional option is never passed on.
+				opt.Option = slices.DeleteFunc(opt.Option, func(other dns.EDNS0) (ok bool) {
+					sn, ok := other.(*dns.EDNS0_SUBNET)
+
+					return ok && sn != edns
+				})
+
 				return nil
 			}
 		}
